@@ -61,6 +61,8 @@ DoneCheck(c, kind, ok, t) ==
   ELSE IF On("C01") /\ kind \notin {"value", "error", "timeout"} THEN "C01.outcome"
   ELSE IF On("C01") /\ calls[c].T > 0 /\ t > CeilTick(calls[c].at + calls[c].T) THEN "C01.deadline"
   ELSE IF On("C01") /\ kind = "timeout" /\ t < calls[c].at + calls[c].T THEN "C01.notEarly"
+  \* C01 says "with the server's reply to that call" as well; reported under C02 unless C01 alone is checked
+  ELSE IF PropSel = "C01" /\ kind = "value" /\ ~ok THEN "C01.ownReply"
   ELSE IF On("C02") /\ kind = "value" /\ ~ok THEN "C02.ownReply"
   ELSE "ok"
 DoneUpd(c, kind, ok, t) ==
